@@ -134,26 +134,19 @@ macro_rules! impl_from_slice_conversions {
                 [S; $N]: Frame,
             {
                 #[inline]
-                fn from_boxed_sample_slice(mut slice: Box<[S]>) -> Option<Self> {
-                    // First, we need a raw pointer to the slice and to make sure that the `Box` is
-                    // forgotten so that our slice does not get deallocated.
+                fn from_boxed_sample_slice(slice: Box<[S]>) -> Option<Self> {
+                    // If the samples cannot be divided evenly into frames, the `Box` is dropped
+                    // here and its allocation released.
                     let len = slice.len();
-                    let slice_ptr = &mut slice as &mut [S] as *mut [S];
-                    core::mem::forget(slice);
-                    let sample_slice = unsafe {
-                        core::slice::from_raw_parts_mut((*slice_ptr).as_mut_ptr(), len)
-                    };
+                    if len % $N != 0 {
+                        return None;
+                    }
+                    let new_len = len / $N;
 
-                    // Convert to our frame slice if possible.
-                    let frame_slice = match <&mut [[S; $N]]>::from_sample_slice_mut(sample_slice) {
-                        Some(slice) => slice,
-                        None => return None,
-                    };
-                    let ptr = frame_slice as *mut [[S; $N]];
-
-                    // Take ownership over the slice again before returning it.
+                    // Take the allocation out of the `Box` and re-own it as a slice of frames.
+                    let ptr = Box::into_raw(slice) as *mut S as *mut [S; $N];
                     let new_slice = unsafe {
-                        Box::from_raw(ptr)
+                        Box::from_raw(core::ptr::slice_from_raw_parts_mut(ptr, new_len))
                     };
 
                     Some(new_slice)
@@ -166,15 +159,12 @@ macro_rules! impl_from_slice_conversions {
                 [S; $N]: Frame,
             {
                 #[inline]
-                fn from_boxed_frame_slice(mut slice: Box<[[S; $N]]>) -> Self {
+                fn from_boxed_frame_slice(slice: Box<[[S; $N]]>) -> Self {
                     let new_len = slice.len() * $N;
-                    let frame_slice_ptr = &mut slice as &mut [[S; $N]] as *mut [[S; $N]];
-                    core::mem::forget(slice);
-                    let sample_slice_ptr = frame_slice_ptr as *mut [S];
+                    // Take the allocation out of the `Box` and re-own it as a slice of samples.
+                    let ptr = Box::into_raw(slice) as *mut [S; $N] as *mut S;
                     unsafe {
-                        let ptr = (*sample_slice_ptr).as_mut_ptr();
-                        let sample_slice = core::slice::from_raw_parts_mut(ptr, new_len);
-                        Box::from_raw(sample_slice as *mut _)
+                        Box::from_raw(core::ptr::slice_from_raw_parts_mut(ptr, new_len))
                     }
                 }
             }
